@@ -28,7 +28,7 @@ JOBS = int(os.environ.get("VERIF_JOBS", "16"))
 
 VARIANTS = {
     "plain": ["-O1", "-g0"],
-    "asan": ["-O1", "-g", "-fsanitize=address,undefined", "-fno-omit-frame-pointer",
+    "asan": ["-O1", "-g", "-fsanitize=address,undefined", "-fno-sanitize=signed-integer-overflow,shift", "-fno-omit-frame-pointer",
              "-fno-sanitize-recover=undefined"],
     "tsan": ["-O1", "-g", "-fsanitize=thread"],
 }
